@@ -25,6 +25,12 @@ WORDS = [
     ('uniform', 3600, 1.0, 'ramp',
      [('S', 2, 5), ('D', 6), ('S', 3, 5), ('D', 6), ('S', 2, 5), ('D', 4),
       ('S', 3, 14), ('D', 3)]),
+    # ET exactly zero in every rain-free step (so the average over the
+    # recession intervals is exactly 0) and positive while it rains; grid
+    # step 2.01 mm (2.01 * 1000 is not exact in binary)
+    ('uniform', 3600, 2.01, 'zero-when-dry',
+     [('S', 2, 5), ('D', 6), ('S', 3, 5), ('D', 6), ('S', 1, 3), ('D', 4),
+      ('S', 2, 5), ('D', 6), ('S', 1, 2), ('D', 6)]),
 ]
 _DB = {}
 
@@ -48,6 +54,9 @@ SPLINE_SY = {
     # between 18 and 24 mm: the simulated recession curve is not monotone
     'overshoot': ([12.0, 18.0, 24.0, 30.0], [0.9, 0.01, 0.01, 0.9]),
     # ten or more knots: placeholder names reach two digits
+    # the same function as 'straddle-top' with its knots listed from the top
+    # down (today refused as not strictly increasing)
+    'descending': ([23.0, 21.25, 18.5, 12.0, 5.0], [0.6, 0.55, 0.3, 0.35, 0.2]),
     'twelve-knots': ([-60.0 + 10.0 * i for i in range(12)],
                      [0.11 + 0.05 * i + 0.02 * (i % 3) for i in range(12)]),
 }
@@ -105,13 +114,16 @@ def dataset_bytes(which, curvature=None):
     if key in _DB:
         return _DB[key]
     shape, dt, step, et, word = WORDS[which]
-    ds = events.build(word, shape, 2.0, dt, 18, et=et)
+    ds = events.build(word, shape, 2.0, dt, 18,
+                      et=None if et == 'zero-when-dry' else et)
     if ds is None:
         raise InternalError('simdata word %d outside the family' % which)
     # irregular levels: the measured master curves are then not straight
     # lines, so that mean, median and end values of a curve all differ
     ds['level'] = [z + 0.0078125 * ((k * 7) % 5 - 2) + 0.0002 * (k % 11) ** 2
                    for k, z in enumerate(ds['level'])]
+    if et == 'zero-when-dry':
+        ds['et'] = [0.25 if r > 0 else 0.0 for r in ds['rain']] + [0.0]
     connection, errors = events.workflow_db(ds, step)
     if errors:
         raise InternalError('simdata dataset %d: %r' % (which, errors))
@@ -136,6 +148,26 @@ def memory(which, curvature=None):
     connection = sqlite3.connect(':memory:')
     connection.deserialize(dataset_bytes(which, curvature))
     return connection
+
+
+def master_curve(connection, which):
+    """[(level mm, measured value)] ascending, computed from the BASE
+    tables (level = zeta_number x grid_interval_mm), not from the views"""
+    (step,) = connection.execute(
+        'SELECT grid_interval_mm FROM zeta_grid').fetchone()
+    if which == 'rise':
+        rows = connection.execute(
+            'SELECT zeta_number, AVG(rain_depth_offset_mm + '
+            'mean_crossing_depth_mm) FROM rising_interval JOIN '
+            'rising_interval_zeta USING (start_epoch) GROUP BY zeta_number '
+            'ORDER BY zeta_number').fetchall()
+    else:
+        rows = connection.execute(
+            'SELECT zeta_number, AVG(time_offset_s + mean_crossing_time) '
+            'FROM recession_interval JOIN recession_interval_zeta '
+            'USING (start_epoch) GROUP BY zeta_number '
+            'ORDER BY zeta_number').fetchall()
+    return [(n * step, v) for n, v in rows]
 
 
 def write_yaml(pars, name='pars'):
